@@ -81,7 +81,7 @@ class AnnoScenario:
             return EMPTY
         if isinstance(obj, R) and obj.kind == "generic":
             if attr == "__args__":
-                return obj.fields["args"]
+                return CM.flat_args(obj)
             if attr == "__origin__":
                 return origin_token(obj.fields["origin"].v)
             if attr in ("__qualname__", "__name__", "__supertype__", "__forward_arg__"):
@@ -132,6 +132,8 @@ class AnnoScenario:
         d = fname or ""
         meth = call.func.attr if isinstance(call.func, ast.Attribute) else None
         it = self.ri.interp
+        if len(args) == 1 and not kwargs and (d == "typing.get_args" or (d == "get_args" and self.ri.cur_fi.module.imports.get("get_args") == "typing.get_args")):
+            return CM.typing_get_args(st.freeze(args[0]))
         # -- dynamic dispatch: getattr(self, "rewrite_" + name, None) and calling the result --------------
         if d == "getattr" and len(args) >= 2 and isinstance(args[1], K) and isinstance(args[1].v, str) and isinstance(args[0], (Ref, R, S)) and \
                 (isinstance(args[0], Ref) and args[0].kind == "obj" or isinstance(args[0], R) and args[0].kind == "inst"):
